@@ -60,6 +60,26 @@ class LoopFin:
         return ["Sum.inl " + r]
 
 
+class ForBreakFin(LoopFin):
+    """body of a `for` that may `break`: one round yields (go_on, state)"""
+    kind = "forbreak"
+
+    def __init__(self, cx, state, elem=None):
+        LoopFin.__init__(self, cx, state, False, elem)
+
+    def fall(self):
+        return ["(true, %s)" % self.tuple()]
+
+    def brk(self, node):
+        return ["(false, %s)" % self.tuple()]
+
+    def ret(self, v, node):
+        raise Unsupported("`return` inside a for loop that contains `break`", node)
+
+    def through(self, r):
+        raise Unsupported("`return` inside a loop nested in a for loop with `break`", None)
+
+
 class WhileFin(LoopFin):
     """body of a `while`: one round yields (go_on, state)"""
     kind = "while"
@@ -118,6 +138,10 @@ class FnCtx(ExprMixin):
                 unify(self.env[name], t, node, "variable %s" % name)
             except Unsupported:
                 if name in self.pinned:
+                    if {kind(self.env[name]), kind(t)} == {"int", "rat"} and name not in self.fn.widen:
+                        # `w = 0` ... `w += <float>` in a loop: the variable holds numbers, the int is the same number as a float
+                        self.fn.widen.add(name)
+                        raise Widen(name)
                     raise Unsupported("variable %s changes its type inside a loop that carries it" % name, node)
                 self.env[name] = t          # rebinding with another type (`x /= n` turns an int into a float): a new `let`
         else:
@@ -158,6 +182,11 @@ class FnCtx(ExprMixin):
             tf = self.mod.calls.resolve_translated(self, e.func)
             if tf is not None and tf[0].returns_alias:
                 return ("attr", "*")
+            name = dotted_name(e.func)
+            if name is not None and self.mod.canon(name) == "numpy.asarray" and len(e.args) == 1:
+                return self.root(e.args[0])             # no copy if the argument already is an array
+            if isinstance(e.func, ast.Attribute) and e.func.attr == "get" and e.args:
+                return self.root(e.func.value)          # an object stored in the container
         return None
 
     def key(self, loc):
@@ -184,6 +213,8 @@ class FnCtx(ExprMixin):
             self.share(target_loc)
 
     def check_owned(self, loc, node, what):
+        if loc[0] == "objattr" and loc[1] in self.fn.out_params:
+            return                      # the changed parameter is returned explicitly (out-parameter)
         k = self.key(loc)
         default = "owned" if loc[0] == "attr" else "shared"
         if self.own.get(k, default) != "owned":
@@ -203,6 +234,14 @@ class FnCtx(ExprMixin):
             if e.attr not in self.mod.fields:
                 raise Unsupported("unknown attribute self.%s" % e.attr, node)
             return ("attr", e.attr)
+        if isinstance(e, ast.Attribute) and isinstance(e.value, ast.Name) and e.value.id in self.fn.out_params and e.value.id in self.env:
+            t = self.env[e.value.id]
+            o = self.object_of_type(t)
+            fields = o.get("field_types", {}) if o is not None else \
+                (dict(self.mod.records[t.find().name]["fields"]) if kind(t) == "obj" and t.find().name in self.mod.records else {})
+            if e.attr not in fields:
+                raise Unsupported("attribute .%s of the changed parameter %s is not declared" % (e.attr, e.value.id), node)
+            return ("objattr", e.value.id, e.attr, fields[e.attr])
         if isinstance(e, ast.Attribute) and isinstance(e.value, ast.Name) and e.value.id in self.elem_vars:
             t = self.var_type(e.value.id, node)
             fields = dict(self.mod.records[t.find().name]["fields"]) if kind(t) == "obj" and t.find().name in self.mod.records else {}
@@ -223,14 +262,34 @@ class FnCtx(ExprMixin):
             s = self.coerce(s, t, loc[3], node, "attribute %s.%s" % (loc[1], loc[2]))
             return ["let %s := { %s with %s := %s }" % (ident(loc[1]), ident(loc[1]), ident(loc[2]), s)]
         if loc[0] == "var":
+            if loc[1] in self.fn.widen and kind(t) == "int":
+                s, t = "((%s : Int) : Rat)" % s, TRat
             self.set_var(loc[1], t, node)
-            if s == "[]":                  # empty container: the element type is only known from later uses
+            if s in ("[]", "none"):        # empty container / None: the element type is only known from later uses
                 return ["let %s : %s := %s" % (ident(loc[1]), self.tref(self.env[loc[1]]), s)]
             return ["let %s := %s" % (ident(loc[1]), s)]
         s = self.coerce(s, t, self.mod.fields[loc[1]], node, "attribute self." + loc[1])
+        if self.mod.opaque:          # phantom type parameters: a structure update could otherwise change them
+            return ["let self : %s := { self with %s := %s }" % (self.tref(self.mod.cls_type), ident(loc[1]), s)]
         return ["let self := { self with %s := %s }" % (ident(loc[1]), s)]
 
     # ------------------------------------------------------------------ effects inside expressions
+    def object_of_type(self, t):
+        if kind(t) == "obj":
+            for o in self.mod.objects.values():
+                if o["lean_type"] == t.find().name:
+                    return o
+        return None
+
+    def object_var_method(self, e):
+        """`<var>.<method>(..)` with <var> a variable whose type is a class generated elsewhere -> (var, object, method)"""
+        f = e.func
+        if isinstance(f, ast.Attribute) and isinstance(f.value, ast.Name) and f.value.id in self.env and not (f.value.id == "self" and self.fn.is_method):
+            o = self.object_of_type(self.env[f.value.id])
+            if o is not None and f.attr in o["methods"]:
+                return f.value.id, o, o["methods"][f.attr]
+        return None
+
     def mutating_call(self, e):
         if isinstance(e, ast.Call):
             tf = self.mod.calls.resolve_translated(self, e.func)
@@ -241,13 +300,25 @@ class FnCtx(ExprMixin):
     def hoist(self, e):
         """expression in statement position -> (pre-lines, term, type); a state-changing method call may be the whole
         expression or sit under `not`"""
+        if isinstance(e, ast.Call) and ast.unparse(e.func) in self.mod.call_through:
+            e = ast.Call(func=e.args[self.mod.call_through[ast.unparse(e.func)]], args=[], keywords=[])
+        if isinstance(e, ast.Call) and ast.unparse(e.func) in self.mod.effects:
+            sig = self.mod.effects[ast.unparse(e.func)]
+            args = self.mod.calls.abstract_args(self, e, sig)
+            w = ident(self.mod.spec["world"])
+            call = " ".join(["F.%s" % ident(sig["name"]), "self.%s" % w] + args)
+            ty = (" : %s" % self.tref(self.mod.cls_type)) if self.mod.opaque else ""
+            if sig["ret"] is None:
+                return ["let self%s := { self with %s := %s }" % (ty, w, call)], "()", TUnit
+            r = self.fresh("eff_r")
+            return ["let %s := %s" % (r, call), "let self%s := { self with %s := %s.1 }" % (ty, w, r)], "%s.2" % r, sig["ret"]
         tf = self.mutating_call(e)
         if tf is not None:
             fn, with_self = tf
             if fn is self.fn:
                 raise Unsupported("recursive call of a state-changing method", e)
-            args = self.mod.calls.bind_args(self, fn, e)
-            call = " ".join([fn.lean_name] + (["self"] if with_self else []) + args)
+            args = self.mod.calls.bind_args(self, fn, e) + [ident(g) for g in self.mod.ghost_of(fn)]
+            call = " ".join([fn.lean_name] + (["F"] if fn.uses_abstract else []) + (["self"] if with_self else []) + args)
             if fn.ret_mode == "unit":
                 return ["let self := %s" % call], "()", TUnit
             r = self.fresh("call_r")
@@ -265,6 +336,11 @@ class FnCtx(ExprMixin):
         out = []
         for s in stmts:
             if isinstance(s, ast.Pass):
+                continue
+            if isinstance(s, ast.FunctionDef):
+                self.mod.record("dropped", self.fn, s, "nested function `%s` (a use in translated code would be an unknown name)" % s.name)
+                continue
+            if isinstance(s, (ast.Import, ast.ImportFrom)):
                 continue
             if isinstance(s, ast.Expr) and isinstance(s.value, ast.Constant):
                 continue
@@ -285,6 +361,8 @@ class FnCtx(ExprMixin):
         return out
 
     def pure(self, e):
+        if any(isinstance(n, ast.Call) and ast.unparse(n.func) in self.mod.effects for n in ast.walk(e)):
+            return False
         return not any(self.mutating_call(n) is not None or
                        (isinstance(n, ast.Call) and (self.mod.object_method(self.fn, n) or (0, 0, {"mutates": False}))[2]["mutates"])
                        for n in ast.walk(e))
@@ -294,6 +372,17 @@ class FnCtx(ExprMixin):
         if not stmts:
             return k.fall()
         s, rest = stmts[0], stmts[1:]
+        pre = self.mod.prefix.get(self.fn.name)
+        if pre is not None and isinstance(k, FnFin) and ast.unparse(s).startswith(pre["until"]):
+            # PREFIX of the function: the statements before this one were executed, the observed variables are returned
+            self.mod.record("prefix", self.fn, s, "translation stops before `%s`; observed: %s" % (pre["until"], ", ".join(pre["observe"])))
+            vals = []
+            for n in pre["observe"]:
+                vs, vt = self.ex(ast.parse(n, mode="eval").body)
+                vals.append((vs, vt))
+            self.fn.prefix_types = [t for _, t in vals]
+            parts = (["self"] if self.fn.mutates else []) + [ident(p) for p in self.fn.out_params] + [v for v, _ in vals]
+            return [parts[0] if len(parts) == 1 else "(" + ", ".join(parts) + ")"]
         m = getattr(self, "st_" + type(s).__name__, None)
         if m is None:
             raise Unsupported("unsupported statement %s" % type(s).__name__, s)
@@ -308,15 +397,41 @@ class FnCtx(ExprMixin):
             return k.ret(None, s)
         pre, v, t = self.hoist(s.value)
         v = self.coerce(v, t, self.fn.ret, s, "return value of " + self.fn.name)
+        if is_mutable(t):
+            src = self.root(s.value)
+            fresh = src is None or (src[0] == "var" and self.own.get(src[1], "shared") == "owned")
+            self.fn.fresh_returns.append(bool(fresh))
         return pre + k.ret(v, s)
 
     def st_Assign(self, s, rest, k):
         if len(s.targets) != 1:
-            raise Unsupported("chained assignment", s)
+            # a = b = <expr>: both names are bound to ONE object
+            src = self.root(s.value)
+            pre, v, t = self.hoist(s.value)
+            if is_mutable(t):
+                raise Unsupported("chained assignment binds %s to one and the same mutable object: value semantics would be unsound"
+                                  % " and ".join(ast.unparse(x) for x in s.targets), s)
+            lines = pre
+            for tg2 in s.targets:
+                lines = lines + self.store(self.loc_of(tg2, s), v, t, s)
+            return lines + self.block(rest, k)
         tg = s.targets[0]
+        if isinstance(tg, ast.Tuple) and all(isinstance(x, ast.Name) for x in tg.elts):
+            pre, v, t = self.hoist(s.value)
+            ts = [TVar() for _ in tg.elts]
+            unify(t, TProd(ts), s, "unpacked value")
+            p = self.fresh("tup")
+            lines = pre + ["let %s := %s" % (p, v)]
+            for i, (x, tx) in enumerate(zip(tg.elts, ts)):
+                self.set_var(x.id, tx, s)
+                self.own[x.id] = "shared"
+                lines.append("let %s := %s" % (ident(x.id), proj(p, i, len(ts))))
+            return lines + self.block(rest, k)
         if isinstance(tg, ast.Subscript):
             return self.subscript_store(tg, None, s.value, s) + self.block(rest, k)
         loc = self.loc_of(tg, s)
+        if isinstance(s.value, ast.Name) and s.value.id in self.fn.out_params:
+            raise Unsupported("the changed parameter %s is bound to another name" % s.value.id, s)
         pre, v, t = self.hoist(s.value)
         if kind(t) == "unit":
             raise Unsupported("assignment of the result of a function that returns nothing", s)
@@ -364,9 +479,33 @@ class FnCtx(ExprMixin):
         if isinstance(e, ast.Call) and isinstance(e.func, ast.Attribute) and e.func.attr in INPLACE \
                 and self.mod.calls.resolve_translated(self, e.func) is None:
             return self.inplace(e, s) + self.block(rest, k)
-        if self.mutating_call(e) is not None:
+        if isinstance(e, ast.Call) and isinstance(e.func, ast.Attribute) and e.func.attr == "update" and len(e.args) == 1 and not e.keywords \
+                and isinstance(e.args[0], ast.Call) and isinstance(e.args[0].func, ast.Name) and e.args[0].func.id == "zip" and len(e.args[0].args) == 2:
+            loc = self.loc_of(e.func.value, s)          # d.update(zip(keys, values))
+            self.check_owned(loc, s, ".update()")
+            c, tc = self.load(loc, s)
+            self.need(tc, ("dict",), s, "receiver of .update()")
+            ks, tk = self.ex(e.args[0].args[0])
+            vs, tv = self.ex(e.args[0].args[1])
+            self.need(tk, ("list", "arr"), s, "keys of update(zip(..))")
+            self.need(tv, ("list", "arr"), s, "values of update(zip(..))")
+            unify(tk.find().args[0], tc.find().args[0], s, "keys of .update()")
+            unify(tv.find().args[0], tc.find().args[1], s, "values of .update()")
+            vsrc = self.root(e.args[0].args[1])
+            if vsrc is not None:
+                self.share(vsrc)                       # the dictionary now refers to the rows of that object
+            return self.store(loc, "PyRt.dictUpdateZip %s %s %s" % (c, ks, vs), tc, s) + self.block(rest, k)
+        if self.mutating_call(e) is not None or (isinstance(e, ast.Call) and (ast.unparse(e.func) in self.mod.effects or ast.unparse(e.func) in self.mod.call_through)):
             pre, _, _ = self.hoist(e)
             return pre + self.block(rest, k)
+        ov = self.object_var_method(e) if isinstance(e, ast.Call) else None
+        if ov is not None and ov[2]["mutates"]:
+            var, o, m = ov
+            if var not in self.fn.out_params and var in [p[0] for p in self.fn.params]:
+                raise Unsupported("internal: changed parameter %s was not detected as an out-parameter" % var, s)
+            call = self.mod.calls.object_call(self, e, None, o, m, recv=ident(var))
+            new = call if m["ret"] is None else "%s.1" % call
+            return ["let %s := %s" % (ident(var), new)] + self.block(rest, k)
         om = self.mod.object_method(self.fn, e) if isinstance(e, ast.Call) else None
         if om is not None and om[2]["mutates"]:
             field, o, m = om
@@ -408,6 +547,9 @@ class FnCtx(ExprMixin):
 
     def static_truth(self, test):
         """truth value of a condition under the assumed finite domains of the spec (`assume`), else None"""
+        tv = self.type_truth(test)
+        if tv is not None:
+            return tv
         doms = self.mod.assume
         if not doms:
             return None
@@ -424,12 +566,78 @@ class FnCtx(ExprMixin):
             return None
         return None
 
+    def type_truth(self, test):
+        """truth value of a test that is decided by the declared assumptions of the variant or by static types"""
+        if isinstance(test, ast.UnaryOp) and isinstance(test.op, ast.Not):
+            r = self.type_truth(test.operand)
+            return None if r is None else (not r)
+        ax = dict(self.mod.assume_exprs)
+        ax.update((self.fn.variant or {}).get("assume_exprs", {}))
+        u = ast.unparse(test)
+        if u in ax:
+            return bool(ax[u])
+        if isinstance(test, ast.Call) and self.mod.canon(dotted_name(test.func) or "") == "numpy.isscalar" and len(test.args) == 1:
+            saved = self.save_scope()
+            try:
+                _, t = self.ex(test.args[0])
+            finally:
+                self.restore_scope(saved)
+            if kind(t) in ("int", "rat", "bool"):
+                return True
+            if kind(t) in ("list", "arr", "set", "dict", "obj", "prod"):
+                return False
+        if isinstance(test, ast.Compare) and len(test.ops) == 1 and isinstance(test.ops[0], (ast.Is, ast.IsNot)) \
+                and isinstance(test.comparators[0], ast.Constant) and test.comparators[0].value is None:
+            _, t = self.ex(test.left)
+            if kind(t) not in ("opt", "var"):
+                return isinstance(test.ops[0], ast.IsNot)
+        return None
+
+    def none_test(self, test):
+        """`x is None` / `x is not None` on a variable of optional type -> (name, is_none_test)"""
+        neg = False
+        while isinstance(test, ast.UnaryOp) and isinstance(test.op, ast.Not):
+            test, neg = test.operand, not neg
+        if isinstance(test, ast.Compare) and len(test.ops) == 1 and isinstance(test.ops[0], (ast.Is, ast.IsNot)) \
+                and isinstance(test.left, ast.Name) and isinstance(test.comparators[0], ast.Constant) and test.comparators[0].value is None \
+                and test.left.id in self.env and kind(self.env[test.left.id]) == "opt":
+            return test.left.id, (isinstance(test.ops[0], ast.Is) != neg)
+        return None
+
     def st_If(self, s, rest, k):
+        if isinstance(s.test, ast.BoolOp) and isinstance(s.test.op, ast.And) and len(s.test.values) >= 2 \
+                and (self.none_test(s.test.values[0]) is not None or self.type_truth(s.test.values[0]) is not None):
+            # `A and B` with A a None-test (or decided statically): if A: (if B: body else: orelse) else: orelse
+            restv = s.test.values[1:]
+            inner_test = restv[0] if len(restv) == 1 else ast.BoolOp(op=ast.And(), values=restv)
+            inner = ast.If(test=inner_test, body=s.body, orelse=s.orelse)
+            outer = ast.If(test=s.test.values[0], body=[inner], orelse=s.orelse)
+            ast.copy_location(inner, s); ast.copy_location(outer, s)
+            return self.st_If(outer, rest, k)
+        nt = self.none_test(s.test)
+        if nt is not None:
+            # optional value: the branch in which it is not None sees the value itself (new binding of the same name)
+            x, is_none = nt
+            tv = self.env[x].find().args[0]
+            none_body, some_body = (s.body, s.orelse) if is_none else (s.orelse, s.body)
+            saved = self.save_scope()
+            a = self.block(list(none_body) + rest, k)
+            own_a = dict(self.own)
+            self.restore_scope(saved)
+            self.env[x] = tv
+            b = self.block(list(some_body) + rest, k)
+            for key, v in own_a.items():
+                if v == "shared":
+                    self.own[key] = "shared"
+            lines = ["(match %s with" % ident(x), "| none =>"] + indent(a) + ["| some %s =>" % ident(x)] + indent(b)
+            lines[-1] += ")"
+            return lines
         st = self.static_truth(s.test)
         if st is not None:
-            self.mod.record("pruned", self.fn, s, "branch `%s` of `if %s` is never taken under the assumption %s"
-                            % ("else" if st else "then", ast.unparse(s.test), self.mod.assume_text()))
-            self.fn.pruned = True
+            self.mod.record("pruned", self.fn, s, "branch `%s` of `if %s` is never taken (static types / declared assumptions%s)"
+                            % ("else" if st else "then", ast.unparse(s.test), (": " + self.mod.assume_text()) if self.mod.assume else ""))
+            if self.type_truth(s.test) is None:
+                self.fn.pruned = True
             return self.block(list(s.body if st else s.orelse) + rest, k)
         pre, c, tc = self.hoist(s.test)
         unify(tc, TBool, s, "condition of if")
@@ -477,7 +685,7 @@ class FnCtx(ExprMixin):
             elif isinstance(n, ast.Call):
                 if isinstance(n.func, ast.Attribute) and n.func.attr in INPLACE and self.mod.calls.resolve_translated(self, n.func) is None:
                     target(n.func.value)
-                if self.mutating_call(n) is not None:
+                if self.mutating_call(n) is not None or ast.unparse(n.func) in self.mod.effects:
                     add("self")
                 om = self.mod.object_method(self.fn, n)
                 if om is not None and om[2]["mutates"]:
@@ -499,7 +707,7 @@ class FnCtx(ExprMixin):
         state = [n for n in self.assigned_in(body) if n in self.defined or (n == "self" and self.fn.is_method)]
         if "self" in state:
             state = ["self"] + [n for n in state if n != "self"]
-        if any(isinstance(n, ast.Return) for b in body for n in ast.walk(b)):
+        if has_return(body):
             raise Unsupported("`return` inside a while loop", s)
         if not state:
             raise Unsupported("while loop that changes no variable defined before it", s)
@@ -547,7 +755,7 @@ class FnCtx(ExprMixin):
         state = [n for n in self.assigned_in(body) if n not in tnames and (n in self.defined or (n == "self" and self.fn.is_method))]
         if "self" in state:
             state = ["self"] + [n for n in state if n != "self"]
-        has_ret = any(isinstance(n, ast.Return) for b in body for n in ast.walk(b))
+        has_ret = has_return(body)
         elem, recv, pre_acc = None, None, []
         if isinstance(s.target, ast.Name) and any(isinstance(n, ast.Attribute) and isinstance(n.ctx, ast.Store) and isinstance(n.value, ast.Name)
                                                    and n.value.id == s.target.id for b in body for n in ast.walk(b)):
@@ -569,6 +777,8 @@ class FnCtx(ExprMixin):
             elem = (acc, s.target.id)
         types = [self.mod.cls_type if n == "self" else self.var_type(n, s) for n in state]
         saved = self.save_scope()
+        pinned0 = set(self.pinned)
+        self.pinned |= set(n for n in state if n != "self")
         log0 = len(self.mut_log)
         b, lets = self.bind_target(s.target, telem, "it")
         if elem is not None:
@@ -581,7 +791,10 @@ class FnCtx(ExprMixin):
         else:
             sb, st_t = self.fresh("st"), TProd(types)
             lets = ["let %s := %s" % (ident(n), proj(sb, i, len(state))) for i, n in enumerate(state)] + lets
-        fin = LoopFin(self, state, has_ret, elem)
+        has_brk = own_break(body)
+        if has_brk and (has_ret or elem is not None):
+            raise Unsupported("`break` in a for loop that also returns / changes its elements", s)
+        fin = ForBreakFin(self, state) if has_brk else LoopFin(self, state, has_ret, elem)
         inner = lets + self.block(body, fin)
         if elem is not None:
             self.elem_vars = self.elem_vars - {elem[1]}
@@ -591,6 +804,7 @@ class FnCtx(ExprMixin):
                 raise Unsupported("in-place mutation of %s inside a loop that also creates an alias of it" % key, node)
         own_after = dict(self.own)
         self.restore_scope(saved)
+        self.pinned = pinned0
         for key, v in own_after.items():
             if v == "shared" and key in self.own:
                 self.own[key] = "shared"
@@ -600,9 +814,14 @@ class FnCtx(ExprMixin):
         if not has_ret:
             if not state:
                 raise Unsupported("loop whose body has no effect on any variable defined before it, but could not be dropped", s)
-            head = "let %s := List.foldl %s" % (sb, lam)
-            lines = pre_acc + [head] + indent(inner, 4)
-            lines[-1] += ") %s %s" % (init, it)
+            if has_brk:
+                head = "let %s := PyRt.forBreak %s %s %s" % (sb, it, init, lam)
+                lines = pre_acc + [head] + indent(inner, 4)
+                lines[-1] += ")"
+            else:
+                head = "let %s := List.foldl %s" % (sb, lam)
+                lines = pre_acc + [head] + indent(inner, 4)
+                lines[-1] += ") %s %s" % (init, it)
             after = [] if len(state) == 1 else ["let %s := %s" % (ident(n), proj(sb, i, len(state))) for i, n in enumerate(state)]
             if elem is not None:
                 after.append("let %s := { %s with %s := %s }" % (ident(recv[0]), ident(recv[0]), ident(recv[1]), ident(elem[0])))
@@ -614,6 +833,42 @@ class FnCtx(ExprMixin):
         after = [] if len(state) <= 1 else ["let %s := %s" % (ident(n), proj(sb, i, len(state))) for i, n in enumerate(state)]
         arm2 = after + self.block(rest, k)
         return lines + ["| Sum.inl %s =>" % r] + indent(k.through(r)) + ["| Sum.inr %s =>" % sb] + indent(arm2)
+
+
+class Widen(Exception):
+    """a loop-carried variable initialised with an int receives a float: retranslate the function with the variable as a float"""
+
+
+def dotted_name(e):
+    if isinstance(e, ast.Name):
+        return e.id
+    if isinstance(e, ast.Attribute):
+        d = dotted_name(e.value)
+        return None if d is None else d + "." + e.attr
+    return None
+
+
+def has_return(stmts):
+    """a `return` of the enclosing function (nested function definitions do not count)"""
+    for s in stmts:
+        if isinstance(s, ast.Return):
+            return True
+        if isinstance(s, (ast.FunctionDef, ast.Lambda)):
+            continue
+        for f in ("body", "orelse"):
+            if has_return(getattr(s, f, []) or []):
+                return True
+    return False
+
+
+def own_break(stmts):
+    """does the statement list contain a `break` that belongs to the enclosing loop (not to a nested loop)?"""
+    for s in stmts:
+        if isinstance(s, ast.Break):
+            return True
+        if isinstance(s, ast.If) and (own_break(s.body) or own_break(s.orelse)):
+            return True
+    return False
 
 
 def eval3(e, key_dump, v):
